@@ -57,11 +57,18 @@ class C08(PropBase):
                 "observe_pending": True, "follow": True, "real_stream": True, "invalid_units": True, "illegal_p": rng.choice([0.05, 0.2, 0.5]), "byz_p": rng.choice([0.0, 0.0, 0.02, 0.06]),
                 "chunk": rng.choice(["whole", "mixed", "mixed", "byte"]), "term_p": rng.choice([0.0, 0.0, 0.01, 0.04]),
                 "max_out": rng.choice([1, 2, 3, 6]),
-                "big": rng.choice([0.02, 0.1]), "style": policy.wire_style(rng), "bad_text": rng.choice([0.0, 0.0, 0.05])}
+                "big": rng.choice([0.02, 0.1]), "style": policy.wire_style(rng), "bad_text": rng.choice([0.0, 0.0, 0.05]),
+                "age": rng.choice([0] * 9 + [255, 300])}
 
     def make(self, init):
         st = St(World(init))
         st.x = {"tri": set(), "refused": 0, "post": 0, "states": set(), "last3": [], "byz_id": 100000, "sasl_round": False}
+        if init.get("age"):
+            try:
+                st.w.fast_preroll("c", "s", int(init["age"]))
+                st.hit("aged_pair")
+            except Diverged:
+                st.x["aged_failed"] = True
         return st
 
     # ------------------------------------------------------------------ policy
